@@ -10,6 +10,7 @@ import (
 	"regexp"
 	"strings"
 	"sync"
+	"syscall"
 	"time"
 
 	"verifharness/hx"
@@ -27,6 +28,7 @@ type rec struct {
 	Counts  map[string]int `json:"counts,omitempty"`
 	Nontriv []string       `json:"nontriv,omitempty"`
 	Invalid bool           `json:"invalid,omitempty"` // stayed timing-invalid: only Fails (the robust ones) count
+	Suspect bool           `json:"suspect,omitempty"` // three or more attempts were invalid by the grid rule alone (canary and own lateness fine)
 }
 
 func newRec() *rec { return &rec{Counts: map[string]int{}} }
@@ -72,6 +74,9 @@ func childMain(chunkFile, resFile string, par int, unit time.Duration) {
 	out, err := os.OpenFile(resFile, os.O_CREATE|os.O_WRONLY|os.O_APPEND, 0o644)
 	if err != nil {
 		panic(err)
+	}
+	if os.Getenv("C18_RT_CHILD") != "" {
+		go rtGuard()
 	}
 	// a child whose parent is gone (killed by the time limit of the check, ...) must not stay around
 	go func() {
@@ -186,6 +191,71 @@ func crashed(j job, stderr string, alone bool) *rec {
 	return r
 }
 
+var (
+	rtOnce   sync.Once
+	rtOK     bool
+	chrtPath string
+)
+
+// rtAllowed probes once whether this process may start a child in the real-time class.
+func rtAllowed() bool {
+	rtOnce.Do(func() {
+		if os.Getenv("C18_NO_RT") != "" {
+			return
+		}
+		p, err := exec.LookPath("chrt")
+		if err != nil {
+			return
+		}
+		tr, err := exec.LookPath("true")
+		if err != nil {
+			return
+		}
+		chrtPath = p
+		rtOK = exec.Command(p, "-r", "1", tr).Run() == nil
+	})
+
+	return rtOK
+}
+
+func allSeq(jobs []job) bool {
+	for _, j := range jobs {
+		if !strings.HasPrefix(j.Desc, "seq ") {
+			return false
+		}
+	}
+
+	return len(jobs) > 0
+}
+
+// rtGuard runs in a child of the real-time class: when the process has used more than 4.5 cores over three seconds
+// (the sequential cases need about half a core, a -race build a few times that) it puts all its threads back into the
+// normal scheduling class.
+func rtGuard() {
+	cpu := func() time.Duration {
+		var ru syscall.Rusage
+		if syscall.Getrusage(syscall.RUSAGE_SELF, &ru) != nil {
+			return 0
+		}
+
+		return time.Duration(ru.Utime.Nano() + ru.Stime.Nano())
+	}
+	last, lastAt := cpu(), time.Now()
+	for {
+		time.Sleep(3 * time.Second)
+		now, at := cpu(), time.Now()
+		if float64(now-last) > 4.5*float64(at.Sub(lastAt)) {
+			if p, err := exec.LookPath("chrt"); err == nil {
+				exec.Command(p, "-a", "-o", "-p", "0", fmt.Sprint(os.Getpid())).Run() //nolint:errcheck
+			}
+			fmt.Fprintln(os.Stderr, "c18: child left the real-time class (CPU use above 4.5 cores)")
+
+			return
+		}
+		last, lastAt = now, at
+	}
+}
+
 // runChild runs one child over jobs; it returns the results it delivered, the indices that had begun but not finished
 // when it died, and its stderr (empty if it exited normally).
 func runChild(dir string, seq int, jobs []job, par int, unit time.Duration) (done map[int]*rec, open []int, stderr string) {
@@ -200,7 +270,20 @@ func runChild(dir string, seq int, jobs []job, par int, unit time.Duration) (don
 	if err != nil {
 		panic(err)
 	}
-	cmd := exec.Command(self, "--child", chunkFile, resFile, fmt.Sprint(par), fmt.Sprint(unit.Milliseconds()))
+	args := []string{self, "--child", chunkFile, resFile, fmt.Sprint(par), fmt.Sprint(unit.Milliseconds())}
+	cmd := exec.Command(args[0], args[1:]...)
+	// The sequential cases are a real-time tie (a few goroutines that sleep until instants tens of ms apart, about half
+	// a core in all).  On a machine with more runnable processes than cores their wake-ups come many ms late and the
+	// attempts are thrown away as timing-invalid (measured with 40 runnable processes on 16 cores: 35 wake-ups per 20 s
+	// more than 6 ms late under the normal policy, the same with nice -10, one under SCHED_RR).  Where the system
+	// allows it, a child that runs sequential cases only is therefore started in the round-robin real-time class at
+	// the lowest priority, with at most 6 threads running Go code, and it goes back to the normal class by itself if
+	// it ever uses more CPU than that (rtGuard) - a change of the code under test that makes a worker spin must not
+	// take the machine away from everybody else.  The CPU-heavy stress parts never run that way.
+	if allSeq(jobs) && rtAllowed() {
+		cmd = exec.Command(chrtPath, append([]string{"-r", "1"}, args...)...)
+		cmd.Env = append(os.Environ(), "GOMAXPROCS=6", "C18_RT_CHILD=1")
+	}
 	var errBuf strings.Builder
 	cmd.Stderr = &errBuf
 	cmd.Stdout = os.Stdout
